@@ -42,7 +42,7 @@ type Box struct {
 	DevNames      []string `json:"deviation_events,omitempty"`
 
 	// Stated restrictions of the apply-lag boxes (all part of the box definition).
-	LagAt uint8 `json:"lag_only_at_node,omitempty"` // 0: every node may enter lag mode
+	LagAt uint8 `json:"lag_only_at_node,omitempty"` // 0: every node may enter lag mode (lag and plag alike)
 	// CampaignBy[t] lists the nodes that may campaign while their own term is t (i.e. for
 	// term t+1); a term without an entry is unrestricted.
 	CampaignBy   map[uint64][]int `json:"campaign_only_by_nodes_at_term,omitempty"`
@@ -105,7 +105,7 @@ func (b *Box) candidates(c *cluster, dev int) []cand {
 	drivers := func(cost uint8, only uint32) {
 		for i := range c.nodes {
 			n := uint8(i + 1)
-			for _, k := range []uint8{evCampaign, evPropose, evHeartbeat, evCrash, evRestart, evCompact, evExpire, evLag, evApply, evUnlag} {
+			for _, k := range []uint8{evCampaign, evPropose, evHeartbeat, evCrash, evRestart, evCompact, evExpire, evLag, evApply, evUnlag, evPLag, evPersist, evUnplag} {
 				if k == evPropose && b.LeaderPropose && !c.nodes[i].isLeader() {
 					continue
 				}
@@ -117,7 +117,7 @@ func (b *Box) candidates(c *cluster, dev int) []cand {
 						continue
 					}
 				}
-				if k == evLag && b.LagAt != 0 && n != b.LagAt {
+				if (k == evLag || k == evPLag) && b.LagAt != 0 && n != b.LagAt {
 					continue
 				}
 				if b.has(k) && only&(1<<k) != 0 {
@@ -221,7 +221,7 @@ func (b *Box) candidates(c *cluster, dev int) []cand {
 			out = append(out, cand{Event{K: evDup, A: s}, 1})
 		}
 	}
-	drivers(1, b.Devs&kinds(evCampaign, evPropose, evCrash, evRestart, evIsolate, evLag, evApply))
+	drivers(1, b.Devs&kinds(evCampaign, evPropose, evCrash, evRestart, evIsolate, evLag, evApply, evPLag, evPersist))
 	return out
 }
 
@@ -292,7 +292,7 @@ type rec struct {
 	ev       Event
 	hash     uint64
 	cost     uint8
-	flags    uint32
+	flags    uint64
 	backlog  uint8 // largest apply backlog (committed - applied) of a node in the target state
 	expanded bool  // the worker already produced this state's successors (chain state)
 }
@@ -435,7 +435,7 @@ func worker(tb []byte, progress func()) []byte {
 		w.ev(rc.ev)
 		w.u64(rc.hash)
 		w.u8(rc.cost)
-		w.u32(rc.flags)
+		w.u64(rc.flags)
 		w.u8(rc.backlog)
 		if rc.expanded {
 			w.u8(1)
@@ -666,7 +666,7 @@ func decodeResult(out []byte) ([]stateRes, []rec, []workerViol, simStats) {
 		rc.ev = r.ev()
 		rc.hash = r.u64()
 		rc.cost = r.u8()
-		rc.flags = r.u32()
+		rc.flags = r.u64()
 		rc.backlog = r.u8()
 		rc.expanded = r.u8() == 1
 	}
